@@ -722,6 +722,8 @@ impl<'a> Drop for SctpCleanupGuard<'a> {
                     .swap(DataChannelState::Closed as usize, Ordering::SeqCst);
                 if old_state != DataChannelState::Closed as usize {
                     dc.send_event(DataChannelEvent::Close);
+                    #[cfg(rustrtc_verif)]
+                    self.inner.verif_chan(&dc, "close", "teardown");
                     dc.close_channel();
                 }
             }
@@ -1273,6 +1275,13 @@ impl SctpInner {
 
         let failures = self.t1_failures.fetch_add(1, Ordering::SeqCst) + 1;
         debug!("SCTP T1 expired, failure count: {}", failures);
+        #[cfg(rustrtc_verif)]
+        crate::verif::emit(
+            "sctp",
+            self.verif_inst(),
+            "t1",
+            serde_json::json!({"failures": failures}),
+        );
 
         if failures > SCTP_MAX_INIT_RETRANS {
             debug!("SCTP T1 max retransmissions exceeded, closing");
@@ -1461,6 +1470,13 @@ impl SctpInner {
             }
         }
 
+        #[cfg(rustrtc_verif)]
+        crate::verif::emit(
+            "sctp",
+            self.verif_inst(),
+            "t3",
+            serde_json::json!({"rto_ms": (new_rto * 1000.0) as i64}),
+        );
         self.flight_size.store(0, Ordering::SeqCst);
         self.partial_bytes_acked.store(0, Ordering::SeqCst);
         self.fast_recovery_active.store(false, Ordering::SeqCst);
@@ -1501,6 +1517,10 @@ impl SctpInner {
         self.verification_tag.store(local_tag, Ordering::SeqCst);
 
         let initial_tsn = random_u32();
+        #[cfg(rustrtc_verif)]
+        let initial_tsn = crate::verif::get_override("sctp_initial_tsn_client")
+            .map(|v| v as u32)
+            .unwrap_or(initial_tsn);
         self.next_tsn.store(initial_tsn, Ordering::SeqCst);
 
         let mut init_params = BytesMut::new();
@@ -1605,6 +1625,9 @@ impl SctpInner {
                 buf.advance(padding);
             }
 
+            #[cfg(rustrtc_verif)]
+            self.verif_rx(chunk_type, chunk_flags, verification_tag, &chunk_value);
+
             match chunk_type {
                 CT_INIT => self.handle_init(verification_tag, chunk_value).await?,
                 CT_INIT_ACK => self.handle_init_ack(chunk_value).await?,
@@ -1656,6 +1679,9 @@ impl SctpInner {
             }
         }
 
+        #[cfg(rustrtc_verif)]
+        self.verif_snap("rx");
+
         // SACK will be handled in transmit() to allow bundling
 
         Ok(())
@@ -1699,6 +1725,10 @@ impl SctpInner {
         init_ack_params.put_u16(10);
         // Initial TSN
         let initial_tsn = random_u32();
+        #[cfg(rustrtc_verif)]
+        let initial_tsn = crate::verif::get_override("sctp_initial_tsn_server")
+            .map(|v| v as u32)
+            .unwrap_or(initial_tsn);
         self.next_tsn.store(initial_tsn, Ordering::SeqCst);
         init_ack_params.put_u32(initial_tsn);
 
@@ -1808,6 +1838,8 @@ impl SctpInner {
                 dc.state
                     .store(DataChannelState::Open as usize, Ordering::SeqCst);
                 dc.send_event(DataChannelEvent::Open);
+                #[cfg(rustrtc_verif)]
+                self.verif_chan(&dc, "open", "cookie_ack");
             } else {
                 let state = dc.state.load(Ordering::SeqCst);
                 if state == DataChannelState::Connecting as usize
@@ -2220,6 +2252,8 @@ impl SctpInner {
                 dc.state
                     .store(DataChannelState::Open as usize, Ordering::SeqCst);
                 dc.send_event(DataChannelEvent::Open);
+                #[cfg(rustrtc_verif)]
+                self.verif_chan(&dc, "open", "cookie_echo");
             } else {
                 let state = dc.state.load(Ordering::SeqCst);
                 if state == DataChannelState::Connecting as usize
@@ -2276,6 +2310,10 @@ impl SctpInner {
                                 if let Some(dc) = weak_dc.upgrade()
                                     && dc.id == *sid
                                 {
+                                    #[cfg(rustrtc_verif)]
+                                    for m in &ready {
+                                        self.verif_deliver(&dc, m, "fwd");
+                                    }
                                     for m in &ready {
                                         dc.send_event(DataChannelEvent::Message(m.clone()));
                                     }
@@ -2473,6 +2511,8 @@ impl SctpInner {
                 dc.state
                     .store(DataChannelState::Closed as usize, Ordering::SeqCst);
                 dc.send_event(DataChannelEvent::Close);
+                #[cfg(rustrtc_verif)]
+                self.verif_chan(&dc, "close", "local_close");
             }
         }
 
@@ -2753,18 +2793,29 @@ impl SctpInner {
                 drop(buffer);
 
                 if unordered || !dc.ordered {
+                    #[cfg(rustrtc_verif)]
+                    self.verif_deliver(&dc, &msg, "unordered");
                     dc.send_event(DataChannelEvent::Message(msg));
                 } else {
                     let mut streams = self.inbound_streams.lock();
                     let stream = streams.entry(stream_id).or_insert_with(InboundStream::new);
                     let ready = stream.enqueue(stream_seq, msg);
                     for m in ready {
+                        #[cfg(rustrtc_verif)]
+                        self.verif_deliver(&dc, &m, "ordered");
                         dc.send_event(DataChannelEvent::Message(m));
                     }
                 }
             }
         } else {
             trace!("SCTP: Received data for unknown stream id {}", stream_id);
+            #[cfg(rustrtc_verif)]
+            crate::verif::emit(
+                "sctp",
+                self.verif_inst(),
+                "drop_unknown_stream",
+                serde_json::json!({"sid": stream_id, "ssn": stream_seq, "flags": flags, "len": user_data.len()}),
+            );
         }
 
         Ok(())
@@ -2820,6 +2871,8 @@ impl SctpInner {
                     dc.state
                         .store(DataChannelState::Open as usize, Ordering::SeqCst);
                     dc.send_event(DataChannelEvent::Open);
+                    #[cfg(rustrtc_verif)]
+                    self.verif_chan(&dc, "open", "dcep_open");
 
                     {
                         let mut channels = self.data_channels.lock();
@@ -2857,6 +2910,8 @@ impl SctpInner {
                             .is_ok()
                         {
                             dc.send_event(DataChannelEvent::Open);
+                            #[cfg(rustrtc_verif)]
+                            self.verif_chan(&dc, "open", "dcep_ack");
                         }
                         break;
                     }
@@ -2993,6 +3048,13 @@ impl SctpInner {
             self.tlp_probe_sent.store(true, Ordering::Relaxed);
             self.stats_tlp_probes.fetch_add(1, Ordering::Relaxed);
             trace!("TLP: probing tail TSN {} (transmit #{})", tail_tsn, record.transmit_count);
+            #[cfg(rustrtc_verif)]
+            crate::verif::emit(
+                "sctp",
+                self.verif_inst(),
+                "tlp",
+                serde_json::json!({"tsn": tail_tsn}),
+            );
             self.timer_notify.notify_one();
             return true;
         }
@@ -3108,6 +3170,9 @@ impl SctpInner {
             .fetch_add(packet_size as u64, Ordering::Relaxed);
         self.stats_packets_sent.fetch_add(1, Ordering::Relaxed);
 
+        #[cfg(rustrtc_verif)]
+        self.verif_tx(tag, &buf);
+
         if self.outgoing_packet_tx.send(buf.freeze()).is_err() {
             debug!("Failed to send SCTP packet to transport: channel closed");
             *self.close_reason.lock() = Some("TRANSPORT_CLOSED".into());
@@ -3219,6 +3284,8 @@ impl SctpInner {
                 max_retransmits,
                 expiry,
             };
+            #[cfg(rustrtc_verif)]
+            self.verif_enqueue(channel_id, ssn, ordered, ppid, 1, data);
             self.outbound_queue.lock().push_back(chunk);
             self.timer_notify.notify_one();
             return Ok(());
@@ -3256,6 +3323,15 @@ impl SctpInner {
             offset += chunk_payload_size;
         }
 
+        #[cfg(rustrtc_verif)]
+        self.verif_enqueue(
+            channel_id,
+            ssn,
+            ordered,
+            ppid,
+            total_len.div_ceil(max_payload_size),
+            data,
+        );
         // Trigger run_loop to transmit
         drop(queue);
         self.timer_notify.notify_one();
@@ -3265,6 +3341,8 @@ impl SctpInner {
 
     async fn transmit(&self) -> Result<()> {
         let mut chunks_to_send = Vec::new();
+        #[cfg(rustrtc_verif)]
+        self.verif_snap("xmit_begin");
 
         if self.sack_needed.swap(false, Ordering::Acquire) {
             chunks_to_send.push(self.create_sack_chunk());
@@ -3415,6 +3493,9 @@ impl SctpInner {
             self.transmit_chunks(chunks_to_send).await?;
         }
 
+        #[cfg(rustrtc_verif)]
+        self.verif_snap("xmit_end");
+
         Ok(())
     }
 
@@ -3529,6 +3610,13 @@ impl SctpInner {
             debug!(
                 "PR-SCTP: advanced peer ack point {} -> {}",
                 advanced, new_advanced
+            );
+            #[cfg(rustrtc_verif)]
+            crate::verif::emit(
+                "sctp",
+                self.verif_inst(),
+                "advance",
+                serde_json::json!({"from": advanced, "to": new_advanced}),
             );
         }
     }
@@ -3766,6 +3854,221 @@ impl SctpInner {
             },
             flight_size,
             sent_queue_len
+        );
+    }
+}
+
+
+// ---------------------------------------------------------------------------
+// Verification hooks (compiled only with `--cfg rustrtc_verif`): read-only
+// projections of the association state logged at the linearization points of
+// the handlers above. See /verif/DESIGN.md appendix A (H2).
+// ---------------------------------------------------------------------------
+#[cfg(rustrtc_verif)]
+impl SctpInner {
+    fn verif_inst(&self) -> &'static str {
+        if self.is_client { "A" } else { "B" }
+    }
+
+    fn verif_state_name(&self) -> &'static str {
+        match *self.state.lock() {
+            SctpState::New => "New",
+            SctpState::Connecting => "Connecting",
+            SctpState::Connected => "Connected",
+            SctpState::Closed => "Closed",
+        }
+    }
+
+    /// One inbound chunk, before it is dispatched.
+    fn verif_rx(&self, chunk_type: u8, flags: u8, vtag: u32, value: &Bytes) {
+        if !crate::verif::enabled() {
+            return;
+        }
+        let mut m = serde_json::Map::new();
+        m.insert("type".into(), chunk_type.into());
+        m.insert("flags".into(), flags.into());
+        m.insert("vtag".into(), vtag.into());
+        m.insert("st".into(), self.verif_state_name().into());
+        let v = &value[..];
+        let be32 = |o: usize| u32::from_be_bytes([v[o], v[o + 1], v[o + 2], v[o + 3]]);
+        let be16 = |o: usize| u16::from_be_bytes([v[o], v[o + 1]]);
+        match chunk_type {
+            CT_DATA if v.len() >= 12 => {
+                m.insert("tsn".into(), be32(0).into());
+                m.insert("sid".into(), be16(4).into());
+                m.insert("ssn".into(), be16(6).into());
+                m.insert("ppid".into(), be32(8).into());
+                m.insert("len".into(), (v.len() - 12).into());
+            }
+            CT_SACK if v.len() >= 12 => {
+                m.insert("cum".into(), be32(0).into());
+                m.insert("rwnd".into(), be32(4).into());
+                let ng = be16(8) as usize;
+                let mut gaps = Vec::new();
+                for i in 0..ng {
+                    let o = 12 + 4 * i;
+                    if v.len() < o + 4 {
+                        break;
+                    }
+                    gaps.push(serde_json::json!([be16(o), be16(o + 2)]));
+                }
+                m.insert("gaps".into(), gaps.into());
+                m.insert("ndup".into(), be16(10).into());
+            }
+            CT_INIT | CT_INIT_ACK if v.len() >= 16 => {
+                m.insert("itag".into(), be32(0).into());
+                m.insert("rwnd".into(), be32(4).into());
+                m.insert("itsn".into(), be32(12).into());
+            }
+            CT_FORWARD_TSN if v.len() >= 4 => {
+                m.insert("cum".into(), be32(0).into());
+                let mut pairs = Vec::new();
+                let mut o = 4;
+                while v.len() >= o + 4 {
+                    pairs.push(serde_json::json!([be16(o), be16(o + 2)]));
+                    o += 4;
+                }
+                m.insert("streams".into(), pairs.into());
+            }
+            _ => {}
+        }
+        crate::verif::emit("sctp", self.verif_inst(), "rx", serde_json::Value::Object(m));
+    }
+
+    /// One outbound packet, fully built (checksum filled in).
+    fn verif_tx(&self, vtag: u32, packet: &[u8]) {
+        if !crate::verif::enabled() {
+            return;
+        }
+        let mut chunks = Vec::new();
+        let mut o = SCTP_COMMON_HEADER_SIZE;
+        while packet.len() >= o + CHUNK_HEADER_SIZE {
+            let t = packet[o];
+            let f = packet[o + 1];
+            let l = u16::from_be_bytes([packet[o + 2], packet[o + 3]]) as usize;
+            if l < CHUNK_HEADER_SIZE || packet.len() < o + l {
+                break;
+            }
+            let v = &packet[o + 4..o + l];
+            let be32 = |p: usize| u32::from_be_bytes([v[p], v[p + 1], v[p + 2], v[p + 3]]);
+            let be16 = |p: usize| u16::from_be_bytes([v[p], v[p + 1]]);
+            let c = match t {
+                CT_DATA if v.len() >= 12 => serde_json::json!({
+                    "type": t, "flags": f, "len": v.len() - 12,
+                    "tsn": be32(0), "sid": be16(4), "ssn": be16(6), "ppid": be32(8)}),
+                CT_SACK if v.len() >= 12 => serde_json::json!({
+                    "type": t, "flags": f, "len": l, "cum": be32(0), "rwnd": be32(4),
+                    "ngaps": be16(8)}),
+                CT_INIT | CT_INIT_ACK if v.len() >= 16 => serde_json::json!({
+                    "type": t, "flags": f, "len": l, "itag": be32(0), "rwnd": be32(4),
+                    "itsn": be32(12)}),
+                CT_FORWARD_TSN if v.len() >= 4 => serde_json::json!({
+                    "type": t, "flags": f, "len": l, "cum": be32(0)}),
+                _ => serde_json::json!({"type": t, "flags": f, "len": l}),
+            };
+            chunks.push(c);
+            o += l + (4 - (l % 4)) % 4;
+        }
+        crate::verif::emit(
+            "sctp",
+            self.verif_inst(),
+            "tx",
+            serde_json::json!({
+                "vtag": vtag,
+                "len": packet.len(),
+                "st": self.verif_state_name(),
+                "chunks": chunks,
+            }),
+        );
+    }
+
+    /// Scalar projection of the association state.
+    fn verif_snap(&self, at: &'static str) {
+        if !crate::verif::enabled() {
+            return;
+        }
+        let (sentq_len, unacked) = {
+            let q = self.sent_queue.lock();
+            (q.len(), q.values().filter(|r| !r.acked && !r.abandoned).count())
+        };
+        let rcvq_len = self.received_queue.lock().len();
+        let outq_len = self.outbound_queue.lock().len();
+        crate::verif::emit(
+            "sctp",
+            self.verif_inst(),
+            "snap",
+            serde_json::json!({
+                "at": at,
+                "st": self.verif_state_name(),
+                "next_tsn": self.next_tsn.load(Ordering::SeqCst),
+                "cum": self.cumulative_tsn_ack.load(Ordering::SeqCst),
+                "rcvq": rcvq_len,
+                "sentq": sentq_len,
+                "unacked": unacked,
+                "flight": self.flight_size.load(Ordering::SeqCst),
+                "cwnd": self.cwnd_tx.load(Ordering::SeqCst),
+                "rwnd": self.peer_rwnd.load(Ordering::SeqCst),
+                "outq": outq_len,
+                "t1": self.t1_active.load(Ordering::SeqCst),
+                "mytag": self.verification_tag.load(Ordering::SeqCst),
+                "peertag": self.remote_verification_tag.load(Ordering::SeqCst),
+            }),
+        );
+    }
+
+    fn verif_deliver(&self, dc: &DataChannel, msg: &Bytes, path: &'static str) {
+        if !crate::verif::enabled() {
+            return;
+        }
+        crate::verif::emit(
+            "sctp",
+            self.verif_inst(),
+            "deliver",
+            serde_json::json!({
+                "sid": dc.id,
+                "len": msg.len(),
+                "h": crate::verif::hash32(msg),
+                "path": path,
+                "ordered": dc.ordered,
+            }),
+        );
+    }
+
+    fn verif_chan(&self, dc: &DataChannel, ev: &'static str, cause: &'static str) {
+        crate::verif::emit(
+            "sctp",
+            self.verif_inst(),
+            ev,
+            serde_json::json!({
+                "sid": dc.id,
+                "cause": cause,
+                "negotiated": dc.negotiated,
+                "label": dc.label,
+                "protocol": dc.protocol,
+                "ordered": dc.ordered,
+                "max_retransmits": dc.max_retransmits,
+                "max_packet_life_time": dc.max_packet_life_time,
+            }),
+        );
+    }
+
+    fn verif_enqueue(&self, sid: u16, ssn: u16, ordered: bool, ppid: u32, nfrag: usize, data: &[u8]) {
+        if !crate::verif::enabled() {
+            return;
+        }
+        crate::verif::emit(
+            "sctp",
+            self.verif_inst(),
+            "enqueue",
+            serde_json::json!({
+                "sid": sid,
+                "ssn": ssn,
+                "ordered": ordered,
+                "ppid": ppid,
+                "nfrag": nfrag,
+                "len": data.len(),
+                "h": crate::verif::hash32(data),
+            }),
         );
     }
 }
